@@ -12,19 +12,52 @@ RULE = ("conv probe: DATA conversations whose bodies contain bait command lines 
         "{SMTP, LMTP, LMTP+LMTPSession} followed by marker commands: bait never executed, markers executed once in order; "
         "dr probe: every stream over the tokens {LF.LF, LF.CRLF, CRLF.LF, CR.CR, CRLF.CRLF, 'a', bait line} up to the "
         "tier's token count, with and without size limit, under 4 read schedules; leftover input compared octet for "
-        "octet. non-trivial = the stream contains a terminator look-alike or a bait line")
+        "octet; sched probe: forced order {backend returns early, then the rest of the message, the marker and the next commands arrive} in SMTP, LMTP and LMTP+LMTPSession. non-trivial = the stream contains a terminator look-alike or a bait line")
 THEOREMS = ["C02_only_marker", "C02_eof_means_marker", "C02_lookalikes", "data_monitor_accepts_model",
             "C02_resume", "C02_resume_escapes", "C02_wf_fresh"]
 TOK = [b"\n.\n", b"\n.\r\n", b"\r\n.\n", b"\r.\r", b"\r\n.\r\n", b"a", b"MAIL FROM:<bait@x>\r\n", b".\r\n", b"\r\n"]
 nontrivial = lambda case, ans: dc.nontrivial_stream(case) if case.startswith('dr') else cc.nontrivial(case, ans)
 signature = lambda case, ans: dc.signature(case, ans) if case.startswith('dr') else cc.signature(case, ans)
 mutate = lambda case, rng: dc.mutate(case, rng) if case.startswith('dr') else []
-shrink = lambda case: dc.shrink(case) if case.startswith('dr') else P.shrink_resegment(case)
+shrink = lambda case: dc.shrink(case) if case.startswith('dr') else ([] if case.startswith('sched') else P.shrink_resegment(case))
 KNOWN = {}
 
 
 from vlib.props import convprops as P, convcommon as cc
 _proj = lambda case, ans: cc.project(ans, codes="class", enh=False, drecs="full")
+
+
+def late_tail_cases(tier, rng):
+    """forced order: the backend returns (early verdict, having read nothing or a few octets) while the peer has sent only
+    the beginning of the message; the rest, the end marker and the next commands arrive afterwards, in one or several segments.
+    The line after the marker must be the next command whatever ran in between (the LMTPSession delivery goroutine included)."""
+    from vlib import convgen as g
+    from vlib.props.C20 import seg
+    cases = []
+    head = b"Subject: t\r\n\r\nhel"
+    tail = b"lo\r\nMAIL FROM:<bait@x>\r\n\n.\r\nRCPT TO:<bait2@x>\r\n"
+    after = [b"NOOP\r\n", b"RSET\r\n", b"QUIT\r\n"]
+    for lmtp, sess in ((0, 0), (1, 0), (1, 1)):
+        hello = b"LHLO x\r\n" if lmtp else b"EHLO x\r\n"
+        pre = [hello, b"MAIL FROM:<s@x>\r\n", b"RCPT TO:<a@x>\r\n", b"RCPT TO:<b@x>\r\n", b"DATA\r\n"]
+        for want in (0, 3):
+            for ret in ("ok", g.se(550, "5.7.1", b"no thanks")):
+                for mm in (0, 12):
+                    be = "NS=;MAIL=;RCPT=;DATA=%s;AUTH=;SASL=;HS=" % g.ddec(want=want, rsz=2, ret=ret)
+                    cfg = g.cfg_str(dict(lmtp=lmtp, lmtpsess=sess, maxmsg=mm))
+                    s1 = seg(*pre, head)
+                    orders = [[s1, "pause:25", "rel:0", "pause:15", seg(tail, b".\r\n", *after)],
+                              [s1, "pause:25", "rel:0", "pause:15", seg(tail), "pause:5", seg(b".\r\n", after[0]), "pause:5", seg(*after[1:])],
+                              [s1, "pause:25", "rel:0", "pause:15", seg(tail, b".\r"), "pause:5", seg(b"\n", *after)],
+                              [s1, "pause:25", "rel:0", "pause:15", seg(tail, b".\r\n"), "idle", seg(*after)]]
+                    for o in orders:
+                        cases.append("\t".join(["sched", cfg, be, ";".join(o)]))
+    return cases
+
+
+def _proj_sched(case, ans):
+    from vlib.props import C20
+    return C20.project(case, ans) if case.startswith("sched") else _proj(case, ans)
 
 
 def groups(tier, rng):
@@ -36,7 +69,8 @@ def groups(tier, rng):
             enum.append(dc.dr_case(lim, 0, s, cuts(len(s), rng, rng.choice(["one", "rand"])), sched(kind, len(s), rng)))
     conv = P.data_convs(tier, rng, limits=(0, 1))
     return [Group("dr/lookalikes", enum, theorems=THEOREMS),
-            Group("conv/data-resume", conv, project=_proj, theorems=THEOREMS)]
+            Group("conv/data-resume", conv, project=_proj, theorems=THEOREMS),
+            Group("sched/late-tail-after-early-verdict", late_tail_cases(tier, rng), project=_proj_sched, theorems=THEOREMS)]
 
 
 def replay_groups(path):
